@@ -83,10 +83,12 @@ pub struct Flags {
 pub struct LoopProbe<P: Problem> {
     pub inner: Box<dyn Condition<P>>,
     pub log: Arc<Mutex<Vec<(usize, usize)>>>,
+    /// horizon: the run is aborted with an error once the condition has been tested this often
+    pub limit: usize,
 }
 impl<P: Problem> Clone for LoopProbe<P> {
     fn clone(&self) -> Self {
-        LoopProbe { inner: self.inner.clone(), log: self.log.clone() }
+        LoopProbe { inner: self.inner.clone(), log: self.log.clone(), limit: self.limit }
     }
 }
 impl<P: Problem> Serialize for LoopProbe<P> {
@@ -107,7 +109,11 @@ impl<P: Problem> Condition<P> for LoopProbe<P> {
             let pops = s.populations();
             let h = pops.len();
             let n = pops.get_current().map(|c| c.len()).unwrap_or(0);
-            self.log.lock().unwrap().push((h, n));
+            let mut l = self.log.lock().unwrap();
+            l.push((h, n));
+            if l.len() > self.limit {
+                return Err(eyre::eyre!("verif horizon: the main loop condition was tested more than {} times", self.limit));
+            }
         }
         self.inner.evaluate(p, s)
     }
@@ -127,7 +133,11 @@ pub struct ObsData {
     pub steps: u64,
     pub names: Vec<String>,
     stack: Vec<Snap>,
+    started: u64,
 }
+
+/// no run of the sweeps executes more than a few thousand components
+pub const STEP_HORIZON: u64 = 200_000;
 impl ObsData {
     fn viol(&mut self, sig: String, detail: String) {
         if self.violations.len() < 16 && !self.violations.iter().any(|v| v.0 == sig) {
@@ -212,6 +222,18 @@ where
     }
 }
 
+/// Observer that only enforces a horizon: panics once more than `limit` components were executed.
+pub fn horizon_observer<P: Problem>(limit: u64) -> StepObserver<P> {
+    let n = std::sync::atomic::AtomicU64::new(0);
+    StepObserver(Box::new(move |_p: &P, _st: &State<P>, ev: StepEvent<P>| {
+        if let Step::Before = ev.step {
+            if n.fetch_add(1, std::sync::atomic::Ordering::Relaxed) > limit {
+                panic!("verif horizon: more than {} component executions in one run", limit);
+            }
+        }
+    }))
+}
+
 pub fn make_observer<P: HProblem>(flags: Flags, tmpl: String, data: Arc<Mutex<ObsData>>) -> StepObserver<P>
 where
     P::Encoding: Debug,
@@ -220,6 +242,11 @@ where
         let mut d = data.lock().unwrap();
         match ev.step {
             Step::Before => {
+                d.started += 1;
+                if d.started > STEP_HORIZON {
+                    drop(d);
+                    panic!("verif horizon: more than {} component executions in one run", STEP_HORIZON);
+                }
                 let s = snap(problem, st);
                 d.stack.push(s);
             }
@@ -454,7 +481,7 @@ where
     Parallel<P>: Evaluate<Problem = P>,
 {
     pub fn config(&self, log: Arc<Mutex<Vec<(usize, usize)>>>) -> ExecResult<Configuration<P>> {
-        let cond: Box<dyn Condition<P>> = Box::new(LoopProbe { inner: LessThanN::iterations(self.iters), log });
+        let cond: Box<dyn Condition<P>> = Box::new(LoopProbe { inner: LessThanN::iterations(self.iters), log, limit: 4 * self.iters as usize + 16 });
         (self.make)(cond)
     }
     pub fn run_full(&self, flags: Flags, ev: &EvKind, extra: Option<StepObserver<P>>) -> (RunOutcome, Option<State<'static, P>>, P) {
@@ -535,7 +562,8 @@ where
             Err(p) => {
                 out.result = Err(format!("panic: {}", p));
                 if flags.c16 {
-                    out.violations.push((format!("C16 template={} panic", tmpl), format!("{}: panicked: {}", ctx, p.chars().take(300).collect::<String>())));
+                    let kind = if p.contains("verif horizon") { "does-not-terminate" } else { "panic" };
+                    out.violations.push((format!("C16 template={} {}", tmpl, kind), format!("{}: panicked: {}", ctx, p.chars().take(300).collect::<String>())));
                 }
                 None
             }
@@ -543,7 +571,8 @@ where
                 let msg = format!("{:#}", e);
                 out.result = Err(msg.clone());
                 if flags.c16 {
-                    out.violations.push((format!("C16 template={} error", tmpl), format!("{}: returned Err: {}", ctx, msg.chars().take(300).collect::<String>())));
+                    let kind = if msg.contains("verif horizon") { "does-not-terminate" } else { "error" };
+                    out.violations.push((format!("C16 template={} {}", tmpl, kind), format!("{}: returned Err: {}", ctx, msg.chars().take(300).collect::<String>())));
                 }
                 None
             }
@@ -668,7 +697,7 @@ pub fn all_specs(iters: u32, thorough: bool) -> Vec<Box<dyn AnySpec>> {
         for (n, sw, ew, c1, c2, vmax) in [(3u32, 0.9, 0.4, 1.5, 1.5, 1.0), (1, 0.5, 0.5, 2.0, 0.0, 0.1), (2, 0.0, 1.0, 0.0, 2.0, 10.0)] {
             spec!(v, "real_pso", format!("{} n={} w={}..{} vmax={}", k, n, sw, ew, vmax), real_problem(kind), iters, exact(n as usize), move |c| pso::real_pso(pso::RealProblemParameters { num_particles: n, start_weight: sw, end_weight: ew, c_one: c1, c_two: c2, v_max: vmax }, c));
         }
-        for (t0, alpha, dev) in [(1.0, 0.9, 0.2), (100.0, 0.5, 1.0)] {
+        for (t0, alpha, dev) in [(1.0, 0.9, 0.2), (100.0, 0.5, 1.0), (1.0, 0.0, 0.5)] {
             spec!(v, "real_sa", format!("{} t0={} alpha={}", k, t0, alpha), real_problem(kind), iters, exact(1), move |c| sa::real_sa(sa::RealProblemParameters { t_0: t0, alpha, deviation: dev }, c));
         }
         for (nn, dev) in [(3u32, 0.2), (1, 0.5)] {
@@ -703,8 +732,8 @@ pub fn all_specs(iters: u32, thorough: bool) -> Vec<Box<dyn AnySpec>> {
     for unequal in tsps {
         let k = if unequal { "5-cities-unequal" } else { "4-cities" };
         let ncity: u32 = if unequal { 5 } else { 4 };
-        for (t0, alpha, swap) in [(1.0, 0.9, 2u32), (10.0, 0.5, 3)] {
-            spec!(v, "permutation_sa", format!("{} t0={} swap={}", k, t0, swap), move || tsp_problem(unequal), iters, exact(1), move |c| sa::permutation_sa(sa::PermutationProblemParameters { t_0: t0, alpha, num_swap: swap }, c));
+        for (t0, alpha, swap) in [(1.0, 0.9, 2u32), (10.0, 0.5, 3), (1.0, 0.0, 2)] {
+            spec!(v, "permutation_sa", format!("{} t0={} alpha={} swap={}", k, t0, alpha, swap), move || tsp_problem(unequal), iters, exact(1), move |c| sa::permutation_sa(sa::PermutationProblemParameters { t_0: t0, alpha, num_swap: swap }, c));
         }
         for (nn, swap) in [(3u32, 2u32), (1, ncity)] {
             spec!(v, "permutation_ls", format!("{} neighbors={} swap={}", k, nn, swap), move || tsp_problem(unequal), iters, exact(1), move |c| ls::permutation_ls(ls::PermutationProblemParameters { num_neighbors: nn, num_swap: swap }, c));
